@@ -137,6 +137,49 @@ fn c32_from_bytes_authentic_p0_parse_fails() {
     from_bytes_authentic::<0, false>();
 }
 
+/// C32 (long packets): for packets around the 1000-byte DNS limit the signature is still checked
+/// over the *whole* payload (every byte after the header), and the accepted packet is the input.
+fn from_bytes_covers_whole_payload<const P: usize>() {
+    let b: [u8; 104] = kani::any();
+    let last: u8 = kani::any();
+    let mut full = vec![0u8; 104 + P];
+    full[..104].copy_from_slice(&b);
+    full[104 + P - 1] = last;
+    let r = SignedPacket::from_bytes(&full);
+    if let Ok(p) = &r {
+        assert!(vs::sig_queries() == 1);
+        let q = vs::sig_query(0);
+        assert!(q.answer);
+        // signable is modelled as ts_be || payload: the signed message covers all P payload bytes
+        assert!(q.msg_len == 8 + P);
+        assert!(p.as_bytes().len() == 104 + P);
+        assert!(p.encoded_packet().len() == P);
+        assert!(p.as_bytes()[104 + P - 1] == last);
+    }
+    kani::cover!(r.is_ok());
+    kani::cover!(r.is_err());
+    core::mem::forget(r);
+    core::mem::forget(full);
+}
+
+macro_rules! c32_long {
+    ($name:ident, $p:expr) => {
+        #[kani::proof]
+        #[kani::unwind(70)]
+        #[kani::stub(vs::curve25519_dalek::edwards::CompressedEdwardsY::decompress, vs::decompress_all_valid)]
+        #[kani::stub(iroh_base::PublicKey::verify, vs::verify_oracle)]
+        #[kani::stub(simple_dns::Packet::parse, parse_yes)]
+        #[kani::stub(signable, signable_model)]
+        #[kani::stub(n0_error::backtrace_enabled, vstubs::backtrace_disabled)]
+        fn $name() {
+            from_bytes_covers_whole_payload::<$p>();
+        }
+    };
+}
+c32_long!(c32_from_bytes_whole_payload_signed_len1000, 896);
+c32_long!(c32_from_bytes_whole_payload_signed_len1001, 897);
+c32_long!(c32_from_bytes_whole_payload_signed_len1104, 1000);
+
 /// C32: from_relay_payload(K, x) behaves as from_bytes(K || x): the signature is checked under
 /// the *given* key and the resulting packet embeds it.
 #[kani::proof]
